@@ -104,7 +104,22 @@ def h_comment_extend(a: str, b: str) -> bool:
     if d is not d_before or not isinstance(d, Comment) or str(d) != _expected_comment(la + lb):
         return False
     e = Comment(a) + b                       # a new block: plain text, the comment itself unchanged
-    return e.lines == la + lb
+    if e.lines != la + lb:
+        return False
+    # a comment that was rendered once and is then changed by any other route renders the new text
+    g = Comment([a, '', ''])
+    str(g)
+    g.trim(end_only=True)
+    want = list(la)
+    while want and want[-1] == '':
+        want.pop()
+    if g.lines != want or str(g) != _expected_comment(want):
+        return False
+    g.lines = lb
+    if str(g) != _expected_comment(lb):
+        return False
+    g.lines.extend(la)
+    return str(g) == _expected_comment(lb + la)
 
 
 # ---- build level -----------------------------------------------------------------------------------
